@@ -276,6 +276,8 @@ def tree_strategy():
         "cwd": st.sampled_from(["root", "maindir", "elsewhere"]),
         "entry": st.sampled_from(["parse_path-abs", "parse_path-rel", "--cfg-abs", "--cfg-rel"]),
         "missing": st.sampled_from([None, None, "main", "inner", "deep", "deep-config"]),
+        "listfile": st.sampled_from([None, "yaml-list", "lines"]),   # main.yaml also names a *list file* (enable_path) in the deep directory
+        "decoys": st.booleans(),                                      # same relative spellings exist next to the entry config and in the cwd
     })
 
 
@@ -324,8 +326,28 @@ def run_tree(ctx, case):
         ref_deep, ref_inner = rel(di, deep_cfg), rel(dm, inner_cfg)
         with open(inner_cfg, "w") as f:
             f.write(f"file: {sp[1]}\ndeep: {ref_deep}\n")
+        list_entries = []
+        if case.get("listfile"):
+            # a list file in the deep directory whose entries are relative to *its* directory
+            for j in range(2):
+                nm = f"item{j}.txt"
+                with open(os.path.join(dd, nm), "w") as f:
+                    f.write(f"item{j}")
+                list_entries.append(nm)
+            list_cfg = os.path.join(dd, "files.yaml" if case["listfile"] == "yaml-list" else "files.lst")
+            with open(list_cfg, "w") as f:
+                f.write("".join(f"- {e}\n" for e in list_entries) if case["listfile"] == "yaml-list" else "".join(e + "\n" for e in list_entries))
+        if case.get("decoys"):
+            for dcy in (dm, os.path.join(root, "elsewhere"), root):
+                for nm in [x[0] for x in data] + ["item0.txt", "item1.txt"]:
+                    pth = os.path.join(dcy, nm)
+                    if not os.path.exists(pth) and os.path.isdir(os.path.dirname(pth)) and os.path.realpath(pth) not in [os.path.realpath(x[1]) for x in data]:
+                        if os.path.dirname(os.path.realpath(pth)) == os.path.realpath(dd) and nm.startswith("item"):
+                            continue
+                        with open(pth, "w") as f:
+                            f.write("decoy")
         with open(main_cfg, "w") as f:
-            f.write(f"file: {sp[0]}\ninner: {ref_inner}\n")
+            f.write(f"file: {sp[0]}\ninner: {ref_inner}\n" + (f"files: {rel(dm, list_cfg)}\n" if case.get("listfile") else ""))
         cwd = {"root": root, "maindir": dm, "elsewhere": os.path.join(root, "elsewhere")}[case["cwd"]]
         os.chdir(cwd)
         entry = main_cfg if case["entry"].endswith("abs") else rel(cwd, main_cfg)
@@ -333,7 +355,12 @@ def run_tree(ctx, case):
         p.add_argument("--cfg", action="config")
         p.add_argument("--file", type=Path_fr)
         p.add_argument("--inner", type=Inner)
+        from typing import List
+
+        p.add_argument("--files", type=List[Path_fr], enable_path=True, default=[])
         ctx.cls("entry:" + case["entry"])
+        if case.get("listfile"):
+            ctx.cls("listfile:" + case["listfile"])
         ctx.cls("missing:" + str(case["missing"]))
         if len({dm, di, dd}) >= 2:
             ctx.mark_nontrivial()
@@ -370,6 +397,15 @@ def run_tree(ctx, case):
                         ctx.finding(f"C19/tree/wrong-file-content/{which}", {"got": g.get_content()})
                 except Exception as ex:  # noqa
                     ctx.finding(f"C19/tree/get_content-raises/{which}", {"error": fmt_exc(ex)})
+        if case.get("listfile"):
+            if len(cfg.files) != 2:
+                ctx.finding("C19/tree/list-file-not-expanded", {"files": short(cfg.files, 200)})
+            for j, g in enumerate(cfg.files[:2]):
+                want = os.path.join(dd, f"item{j}.txt")
+                if os.path.realpath(g.absolute) != os.path.realpath(want):
+                    ctx.finding(f"C19/tree/list-file-entry-not-resolved-against-the-list-file's-directory/{case['listfile']}", {"got": str(g.absolute), "expected": want, "cwd": cwd})
+                elif str(g.relative) != f"item{j}.txt":
+                    ctx.finding("C19/tree/list-file-entry-relative-is-not-the-spelling", {"got": str(g.relative)})
     finally:
         os.chdir(old)
         shutil.rmtree(root, ignore_errors=True)
